@@ -1331,6 +1331,40 @@ func (env *SpecEnv) call(x *ast.CallExpr, subs map[string]*SpecExpr) SV {
 				arr := vc.ufApp("zlib_inflate", ArrSort(is, vc.byteSort()), st0.Data, off, n)
 				return SV{V: Select(arr, env.idxTerm(as[3])), T: types.Typ[types.Uint8]}
 			}
+		case "stream_len", "stream_at", "stream_err":
+			// what a reader value will still deliver: length, byte j, and the final error
+			as := env.args(x, subs)
+			ln, at, e, ok := vc.streamView(env.st, as[0].V)
+			if !ok {
+				sfail("%s: argument is not a readable ghost stream (%T)", id.Name, as[0].V)
+			}
+			switch id.Name {
+			case "stream_len":
+				return SV{V: ln, T: types.Typ[types.Int]}
+			case "stream_err":
+				return SV{V: e, T: nil}
+			default:
+				return SV{V: at(env.idxTerm(as[1])), T: types.Typ[types.Uint8]}
+			}
+		case "ufc":
+			// ufc("name", r): an uninterpreted function of the bytes r has still to deliver
+			as := env.args(x, subs)
+			if as[0].C == nil {
+				sfail("ufc: first argument must be a string literal")
+			}
+			name := constant.StringVal(as[0].C)
+			s0, _, ok := env.streamOf(as[1])
+			if !ok {
+				sfail("ufc: second argument must be a stream")
+			}
+			off := vc.iAdd(s0.Base, s0.Pos)
+			n := vc.iSub(s0.Len, s0.Pos)
+			if strings.HasPrefix(name, "ok_") {
+				return SV{V: vc.ufApp("content!"+name, SBool, s0.Data, off, n), T: boolT}
+			}
+			u32 := types.Typ[types.Uint32]
+			srt, _ := vc.sortOf(u32)
+			return SV{V: vc.ufApp("content!"+name, srt, s0.Data, off, n), T: u32}
 		case "recovered":
 			return SV{V: TBool(true), T: boolT}
 		case "Pow":
